@@ -578,7 +578,8 @@ int vnadata_convert(const vnadata_t *vdp_in, vnadata_t *vdp_out,
 	if (vdp_out != vdp_in) {
 	    int cells = vdp_in->vd_rows * vdp_in->vd_columns;
 
-	    for (int findex = 0; findex < vdp_in->vd_frequencies; ++findex) {
+	    for (int findex = 0; cells > 0 &&
+		    findex < vdp_in->vd_frequencies; ++findex) {
 		(void)memcpy(vdp_out->vd_data[findex], vdp_in->vd_data[findex],
 		    cells * sizeof(double complex));
 	    }
